@@ -7,7 +7,9 @@
 package c14
 
 import (
+	"bytes"
 	"context"
+	"encoding/json"
 	"fmt"
 	"math/rand/v2"
 	"net/http/httptest"
@@ -36,9 +38,20 @@ import (
 // yieldSink is the audit sink: it is invoked between the permission check and
 // the locked data access of most methods (and inside the lock for list and
 // conditional get), which makes it the natural place to stretch interleavings.
-type yieldSink struct{ n atomic.Uint64 }
+type yieldSink struct {
+	n      atomic.Uint64
+	bad    atomic.Int64
+	sample atomic.Pointer[[]byte]
+}
 
 func (y *yieldSink) Write(p []byte) (int, error) {
+	// every Write must be exactly one complete audit record (a sink that never looks at the bytes would
+	// also hide a writer that lets concurrent calls scribble over each other's buffer)
+	cp := append([]byte(nil), p...)
+	if !json.Valid(bytes.TrimSpace(cp)) || bytes.Count(cp, []byte("\n")) != 1 || !bytes.HasSuffix(cp, []byte("\n")) {
+		y.bad.Add(1)
+		y.sample.Store(&cp)
+	}
 	switch y.n.Add(1) % 5 {
 	case 0:
 		time.Sleep(time.Duration(1+y.n.Load()%7) * time.Microsecond)
@@ -185,11 +198,17 @@ func TestC14(t *testing.T) {
 func oneHistory(t *testing.T, r *evid.Run, dir string, idx int, sh shape, level string) {
 	r.Eval(1)
 	rng := r.Rand(uint64(idx))
-	d, err := db.Open(filepath.Join(dir, fmt.Sprintf("h%d.db", idx)), realdb.DummyKey("c14"), audit.New(&yieldSink{}))
+	snk := &yieldSink{}
+	d, err := db.Open(filepath.Join(dir, fmt.Sprintf("h%d.db", idx)), realdb.DummyKey("c14"), audit.New(snk))
 	if err != nil {
 		t.Error(err)
 		return
 	}
+	defer func() {
+		if n := snk.bad.Load(); n > 0 {
+			r.Violation("audit-record-torn", idx, fmt.Sprintf("history %d: %d write(s) to the audit sink were not one complete JSON line, e.g. %q", idx, n, *snk.sample.Load()), nil)
+		}
+	}()
 	su := realdb.Super()
 	initial := refmodel.New()
 	for i := 0; i < sh.fillers; i++ {
